@@ -248,6 +248,29 @@ func baseSym() []*node {
 	}
 }
 
+// baseLabels is a one-sample profile whose sample carries every label shape:
+// repeated string keys, numeric labels of one key with and without units in
+// every relative order, zero values, a unit on a string label.
+func baseLabels() []*node {
+	lab := func(sub ...*node) *node { return ms("label", 3, sub...) }
+	return []*node{
+		ms("sample_type", 1, vi("type", 1, kStrx, 1), vi("unit", 2, kStrx, 2)),
+		ms("sample", 2, vi("location_id", 1, kRef, 1), vi("value", 2, kNum, 3),
+			lab(vi("key", 1, kStrx, 3), vi("str", 2, kStrx, 4)),
+			lab(vi("key", 1, kStrx, 3), vi("str", 2, kStrx, 1)),
+			lab(vi("key", 1, kStrx, 5), vi("num", 3, kNum, 7), vi("num_unit", 4, kStrx, 6)),
+			lab(vi("key", 1, kStrx, 5), vi("num", 3, kNum, 8)),
+			lab(vi("key", 1, kStrx, 5), vi("num", 3, kNum, 0), vi("num_unit", 4, kStrx, 6)),
+			lab(vi("key", 1, kStrx, 6), vi("num", 3, kNum, 9)),
+			lab(vi("key", 1, kStrx, 6), vi("num", 3, kNum, 1), vi("num_unit", 4, kStrx, 2)),
+			lab(vi("key", 1, kStrx, 6), vi("num", 3, kNum, 2)),
+			lab(vi("key", 1, kStrx, 4), vi("str", 2, kStrx, 4), vi("num_unit", 4, kStrx, 6))),
+		ms("location", 4, vi("id", 1, kID, 1), vi("address", 3, kNum, 0x1100)),
+		st("string_table", 6, ""), st("string_table", 6, "cpu"), st("string_table", 6, "ns"), st("string_table", 6, "k"),
+		st("string_table", 6, "v"), st("string_table", 6, "n"), st("string_table", 6, "u"),
+	}
+}
+
 // baseMin is the smallest valid profile: just the mandatory empty string.
 func baseMin() []*node { return []*node{st("string_table", 6, "")} }
 
